@@ -235,6 +235,14 @@ fn wide(b: &HnswBackend, model: &mut BTreeMap<u64, Meta>, shift: usize) {
         b.insert(100 + i as u64, vec![i as f32, 1.0], to_hash(&m)).expect("insert");
         model.insert(100 + i as u64, m);
     }
+    // the empty-map edge: a live document without any metadata, and one whose metadata is
+    // emptied in place by a replace-with-{} update
+    b.insert(117, vec![17.0, 1.0], to_hash(&Meta::new())).expect("insert");
+    model.insert(117, Meta::new());
+    let m = meta2(Some(3), Some(4));
+    b.insert(118, vec![18.0, 1.0], to_hash(&m)).expect("insert");
+    b.update_metadata(118, to_hash(&Meta::new()), false).expect("update");
+    model.insert(118, Meta::new());
 }
 
 fn part_a(tier: &str, st: &mut Stats) {
@@ -392,6 +400,9 @@ fn h_alphabet() -> Vec<HOp> {
         HOp::Del(1),
         HOp::Del(2),
         HOp::Restart,
+        // empty-map edge
+        HOp::Ins(2, None, None),
+        HOp::Upd(1, None, None, false),
     ]
 }
 
@@ -605,7 +616,7 @@ pub fn run(tier: &str, replay: Option<&str>) -> i32 {
     ev.set("traces_validated_against_impl", tot.histories);
     ev.set("evaluations", tot.filter_evals + tot.deletes_checked);
     ev.set("distinct_nontrivial", tot.nonempty_selections);
-    ev.set("rule", "(A) every filter tree of depth <= 2 over all leaves (Exact/In/Range with 4 operators + missing bound over 16 value classes x keys {a,b}, empty forms; thorough: full pairing and depth 3 over representative leaves) on a 17-document collection covering every value class, evaluated fresh, after overwrites/merges/replaces/deletes/re-inserts, after forced tombstone compaction and after snapshot+recovery; (A2) every ordered pair of value classes (and absence) as an in-place value transition of one document by merge / replace / overwrite / delete+reinsert, all leaves and their negations on that key afterwards; (B) all histories up to the depth over an 11-letter alphabet on ids {1,2,3} with index capacity 3 (tombstone compaction) and restarts, every leaf + representative trees after each step; (C) every history up to the depth on TieredEngine (insert, bulk load bypassing the hot tier, metadata merge/replace, delete, drain) followed by batch_delete_by_metadata_filter for 6 filters: exact set removed, exact count returned. Oracle: independent reference evaluator (cross-checked against metadata_filter::matches on every pair). non-trivial = evaluations whose expected selection is non-empty");
+    ev.set("rule", "(A) every filter tree of depth <= 2 over all leaves (Exact/In/Range with 4 operators + missing bound over 16 value classes x keys {a,b}, empty forms; thorough: full pairing and depth 3 over representative leaves) on a 19-document collection covering every value class plus two documents with an EMPTY metadata map (inserted empty / emptied by replace), evaluated fresh, after overwrites/merges/replaces/deletes/re-inserts, after forced tombstone compaction and after snapshot+recovery; (A2) every ordered pair of value classes (and absence) as an in-place value transition of one document by merge / replace / overwrite / delete+reinsert, all leaves and their negations on that key afterwards; (B) all histories up to the depth over a 13-letter alphabet (incl. insert with empty metadata and replace-with-empty) on ids {1,2,3} with index capacity 3 (tombstone compaction) and restarts, every leaf + representative trees after each step; (C) every history up to the depth on TieredEngine (insert, bulk load bypassing the hot tier, metadata merge/replace, delete, drain) followed by batch_delete_by_metadata_filter for 6 filters: exact set removed, exact count returned. Oracle: independent reference evaluator (cross-checked against metadata_filter::matches on every pair). non-trivial = evaluations whose expected selection is non-empty");
     ev.set("samples", json!([{"filter": format!("{:?}", leaves()[40]), "values": VALUES}, {"filter": format!("{:?}", trees_depth2(&representative_leaves(), &representative_leaves())[7])}]));
     ev.set("exhaustive", true);
     ev.set("part_a_filter_evaluations", a_evals);
